@@ -121,6 +121,27 @@ def rule_owed(prog):
     return res
 
 
+def _applies_pred_to_element(prog, c, PRED, depth=0):
+    """closure c applies a State release predicate to *its own element*: the receiver of the predicate call is derived from
+    the closure's parameter (not from a captured variable), or a closure nested in c applies it to a value captured from c.
+    `states.retain(|s| removed.all(|r| s.release_state(r).is_some()))`: the inner closure (given to all()) applies the
+    predicate to the captured `s`, so it is the retain closure that applies it to its element."""
+    from kq.core import Resolver
+    for _, t2 in c.calls():
+        if (callee_name(t2) or "") in PRED and t2["args"]:
+            r = Resolver(c).root(t2["args"][0])
+            if not (r[0] == "param" and r[1] == 1):      # parameter 1 of a closure is its environment (the captures)
+                return True
+    if depth < 2:
+        for n in prog.closures_of(c, transitive=False):
+            for _, t2 in n.calls():
+                if (callee_name(t2) or "") in PRED and t2["args"]:
+                    r = Resolver(n).root(t2["args"][0])
+                    if r[0] == "param" and r[1] == 1:
+                        return True
+    return False
+
+
 def rule_retain_all(prog):
     """R-RELEASE-ALL (C01, C04): a release predicate is applied to *every* state.
 
@@ -137,7 +158,7 @@ def rule_retain_all(prog):
         for bi, t in f.calls():
             for a in t["args"][1:]:
                 c = closure_arg(prog, f, a) if isinstance(a, dict) and "l" in a else None
-                if c is None or not any((callee_name(t2) or "") in PRED for _, t2 in c.calls()):
+                if c is None or not _applies_pred_to_element(prog, c, PRED):
                     continue
                 meth = (callee_name(t) or "").split("::")[-1]
                 ok = meth in ("retain", "retain_mut")
